@@ -698,7 +698,7 @@ func runC12(c *Ctx) {
 	}
 
 	// ---- C12.6
-	c.Rule("C12.6", "who-may-call: (*Transaction).Close has exactly one caller, (*TransactionMap).CloseAndDeleteAll, in the loop that deletes the entry; CloseAndDeleteAll has exactly one caller, (*Client).Close, with Client.mutexTrMap held", 2)
+	c.Rule("C12.6", "who-may-call: (*Transaction).Close has exactly one caller, (*TransactionMap).CloseAndDeleteAll, in the loop that deletes the entry; every caller of CloseAndDeleteAll holds Client.mutexTrMap for writing", 2)
 	{
 		c.Anchor("C12.6", "Transaction.Close")
 		cs := w.callsTo(trClose)
@@ -714,10 +714,20 @@ func runC12(c *Ctx) {
 		c.Anchor("C12.6", "CloseAndDeleteAll")
 		cs2 := w.callsTo(closeAll)
 		clientClose := w.Func("turn", "Client", "Close")
-		if len(cs2) == 1 && cs2[0].Parent() == clientClose && holds(li.mustAt(cs2[0]), lockTr, true) {
-			c.OK("C12.6", fname(clientClose), "CloseAndDeleteAll caller", w.instrPos(cs2[0]), "called from Client.Close with mutexTrMap held")
+		_ = clientClose
+		unlocked := ""
+		for _, x := range cs2 {
+			if !holds(li.mustAt(x), lockTr, true) {
+				unlocked = fname(x.Parent()) + " at " + w.instrPos(x)
+			}
+		}
+		if len(cs2) >= 1 && unlocked == "" {
+			c.OK("C12.6", fname(closeAll), "CloseAndDeleteAll caller", w.instrPos(cs2[0]), fmt.Sprintf("%d caller(s), each with Client.mutexTrMap held for writing", len(cs2)))
 		} else {
-			c.Bad("C12.6", fname(closeAll), "CloseAndDeleteAll caller", w.pos(closeAll.Pos()), "CloseAndDeleteAll is not called exactly from Client.Close under mutexTrMap")
+			if unlocked == "" {
+				unlocked = "nobody"
+			}
+			c.Bad("C12.6", fname(closeAll), "CloseAndDeleteAll caller", w.pos(closeAll.Pos()), "CloseAndDeleteAll (which closes the result channels of all pending transactions) is called without Client.mutexTrMap by "+unlocked+": a timer or reader that is between finding a transaction and completing it then sends on a closed channel")
 		}
 	}
 
@@ -903,6 +913,8 @@ func ruleResultOwnedByWaiter(c *Ctx, rule string) {
 		return len(out) > 0, out
 	}
 	n := 0
+	handedAllocs := map[*ssa.Alloc]bool{}
+	handedOther := false
 	w.eachInstrDeep(handle, func(in ssa.Instruction) {
 		is, vals := handsOver(in)
 		if !is {
@@ -915,6 +927,11 @@ func ruleResultOwnedByWaiter(c *Ctx, rule string) {
 			return
 		}
 		for _, mv := range vals {
+			if al, isAl := stripIface(w.allocRoot(mv)).(*ssa.Alloc); isAl {
+				handedAllocs[al] = true
+			} else {
+				handedOther = true
+			}
 			org := map[string]bool{}
 			w.ptrOrigins(mv, 5, map[ssa.Value]bool{}, org)
 			var bad []string
@@ -978,6 +995,13 @@ func ruleResultOwnedByWaiter(c *Ctx, rule string) {
 				if !ok || nm(fieldOf(fa)) != "Raw" || !strings.HasSuffix(derefType(fa.X.Type()).String(), "stun/v3.Message") {
 					return
 				}
+				// a message object that is provably not the one handed over (the in-place decode
+				// a copy is made from) is not the waiter's concern
+				if al, isAl := rootAddr(fa.X).(*ssa.Alloc); isAl && !handedOther && len(handedAllocs) > 0 && !handedAllocs[al] {
+					if _, isStruct := al.Type().Underlying().(*types.Pointer).Elem().Underlying().(*types.Struct); isStruct {
+						return
+					}
+				}
 				nRaw++
 				// msg.Raw = append(msg.Raw[:0], data...): the packet is copied into storage the
 				// message already owns
@@ -1003,7 +1027,22 @@ func ruleResultOwnedByWaiter(c *Ctx, rule string) {
 			})
 		}
 		if nRaw == 0 {
-			c.Bad(rule, fname(handle), "raw bytes", w.pos(handle.Pos()), "no store to Message.Raw found on the inbound path: anchor gone")
+			// the handed message is filled by the library's deep copy (msg.CloneTo(clone))
+			cloned := 0
+			for _, f := range sortedFns(scope) {
+				w.eachInstr(f, func(in ssa.Instruction) {
+					if call, ok := in.(*ssa.Call); ok && stdCallee(&call.Call) == "(*github.com/pion/stun/v3.Message).CloneTo" && len(call.Call.Args) == 2 {
+						if al, isAl := stripIface(w.allocRoot(call.Call.Args[1])).(*ssa.Alloc); isAl && handedAllocs[al] {
+							cloned++
+						}
+					}
+				})
+			}
+			if cloned > 0 && !handedOther && cloned >= len(handedAllocs) {
+				c.OK(rule, fname(handle), "raw bytes", w.pos(handle.Pos()), "the message handed over is a deep copy made by stun's CloneTo")
+			} else {
+				c.Bad(rule, fname(handle), "raw bytes", w.pos(handle.Pos()), "no store to Message.Raw found on the inbound path: anchor gone")
+			}
 		}
 	}
 	// no pool.Put after the hand-over, on any path
